@@ -110,6 +110,34 @@ pub fn run(property: &str, tier: &str, replay: Option<Value>) -> ! {
             rep.violation(f.v);
         }
     }
+    // narrow and deep: one two-address pool, two clients, plain DISCOVER / REQUEST, two clock steps
+    let mut ll = ll;
+    if property == "C01" || property == "C09" {
+        let narrow = Alphabet {
+            ops: build_alphabet(&cfgs, &AlphabetSpec { cfgs: &["K1"], clients: 2, addrs: &[], ticks: &[150, 301] })
+                .ops
+                .into_iter()
+                .filter(|o| match o {
+                    Op::Tick(_) => true,
+                    Op::Msg(m) => m.req.is_none() && m.ciaddr.is_none() && m.lease_req.is_none() && m.serverid.is_none(),
+                })
+                .collect(),
+        };
+        let nd = if tier == "thorough" { 9 } else { 7 };
+        match longlived_histories(&cfgs, &narrow, &[vec![]], nd, false) {
+            Ok((st, found)) => {
+                for f in found {
+                    if f.property == property {
+                        rep.violation(f.v);
+                    }
+                }
+                ll.histories += st.histories;
+                ll.steps += st.steps;
+                rep.cov("long_lived_narrow_deep", json!({"alphabet_ops": narrow.ops.len(), "depth": nd, "histories": st.histories}));
+            }
+            Err(e) => rep.machinery_error(format!("long-lived narrow histories: {e}")),
+        }
+    }
     rep.cov("long_lived_histories", ll.histories);
     rep.cov("long_lived_message_steps", ll.steps);
     rep.cov("long_lived_depth", ll.depth);
